@@ -234,6 +234,11 @@ class FileDataPdu(AbstractPduBase):
         file_data_packet = cls.__empty()
         file_data_packet._pdu_header = PduHeader.unpack(data=data)
         file_data_packet._pdu_header.verify_length_and_checksum(data)
+        # Only the octets of this PDU without the CRC16 trailer hold metadata, offset and file data.
+        end_of_data = file_data_packet.pdu_header.packet_len
+        if file_data_packet.pdu_header.crc_flag == CrcFlag.WITH_CRC:
+            end_of_data -= 2
+        data = data[:end_of_data]
         current_idx = file_data_packet.pdu_header.header_len
         if file_data_packet.pdu_header.segment_metadata_flag:
             rec_cont_state = RecordContinuationState((data[current_idx] & 0xC0) >> 6)
